@@ -75,6 +75,15 @@ def build_overlay(scratch, attachments):
     # crate attribute needed by the generic Arc::drop_slow stub
     lib = desired["src/lib.rs"].decode()
     lib = "#![cfg_attr(kani, feature(allocator_api))]\n#![cfg_attr(kani, allow(unused, dead_code, clippy::all, clippy::pedantic, clippy::nursery, missing_docs))]\n" + lib
+    # hash containers -> vector-backed models (hashbrown's SIMD probing is out of CBMC's reach); overlay only
+    a1 = "pub type HashMap<K, V> = std::collections::HashMap<K, V, rustc_hash::FxBuildHasher>;"
+    a2 = "pub(crate) type HashSet<K> = std::collections::HashSet<K, rustc_hash::FxBuildHasher>;"
+    if a1 in lib and a2 in lib:
+        lib = lib.replace(a1, "#[cfg(not(kani))]\n" + a1 + "\n#[cfg(kani)]\n#[doc(hidden)]\n#[allow(missing_docs)]\npub type HashMap<K, V> = crate::vk_collections::VecMap<K, V>;")
+        lib = lib.replace(a2, "#[cfg(not(kani))]\n" + a2 + "\n#[cfg(kani)]\npub(crate) type HashSet<K> = crate::vk_collections::VecSet<K>;")
+        collections_model = True
+    else:
+        collections_model = False
     desired["src/lib.rs"] = lib.encode()
     appended = []
     missing = []
@@ -82,7 +91,10 @@ def build_overlay(scratch, attachments):
     attachments = dict(attachments)
     attachments.setdefault("src/lib.rs", [])
     if "common.rs" not in attachments["src/lib.rs"]:
-        attachments["src/lib.rs"] = ["common.rs"] + list(attachments["src/lib.rs"])
+        attachments["src/lib.rs"] = ["common.rs", "collections.rs"] + list(attachments["src/lib.rs"])
+    attachments.setdefault("src/table/mod.rs", [])
+    if "table_synth.rs" not in attachments["src/table/mod.rs"]:
+        attachments["src/table/mod.rs"] = ["table_synth.rs"] + list(attachments["src/table/mod.rs"])
     for attach, files in attachments.items():
         if attach not in desired:
             missing.append(attach)
@@ -96,7 +108,7 @@ def build_overlay(scratch, attachments):
             depth = attach[len("src/"):].count("/")
             # #[path] on a non-inline module is relative to the directory of the file it is written in
             relp = "../" * depth + "_verif/" + hf
-            vis = "pub(crate) " if hf == "common.rs" else ""
+            vis = "pub(crate) " if hf in ("common.rs", "table_synth.rs", "collections.rs") else ""
             line = '\n#[cfg(kani)]\n#[path = "%s"]\n%smod %s;\n' % (relp, vis, modname)
             extra += line
             appended.append({"file": attach, "module": modname, "harness_file": "harness/" + hf})
@@ -129,7 +141,7 @@ def build_overlay(scratch, attachments):
             if rel not in desired:
                 os.remove(os.path.join(root, fn))
     return {"lsm": lsm, "tgt": os.path.join(scratch, "tgt"), "source_digest": source_digest,
-            "appended": appended, "missing": missing}
+            "appended": appended, "missing": missing, "collections_model": collections_model}
 
 
 # --------------------------------------------------------------------------------------------
